@@ -348,11 +348,11 @@ func (env *Env) binary(x *EBin) (*Term, types.Type) {
 		case "-":
 			return Op("-", SInt, a, b), nil
 		case "*":
-			return Op("*", SInt, a, b), nil
+			return iMul(a, b), nil
 		case "/":
-			return Op("div", SInt, a, b), nil
+			return eDiv(a, b), nil
 		case "%":
-			return Op("mod", SInt, a, b), nil
+			return eMod(a, b), nil
 		case "==":
 			return Eq(a, b), nil
 		case "!=":
@@ -792,6 +792,28 @@ func (env *Env) callExpr(x *ECall) (*Term, types.Type) {
 		}
 		return addrTerm(env.fc.fieldAddr(bt, pt.Elem(), idx)), nil
 	}
+	// contract-level macros: call by value, evaluated in the current (or old) state
+	if md := env.fc.eng.contracts.macros[x.Fun]; md != nil {
+		if len(md.params) != len(x.Args) {
+			efail("macro %s expects %d arguments", md.name, len(md.params))
+		}
+		if md.body == nil {
+			b, err := ParseExpr(md.text)
+			if err != nil {
+				efail("macro %s: %v", md.name, err)
+			}
+			md.body = b
+		}
+		savedVars, savedLets, savedAt := env.vars, env.lets, env.at
+		nv := map[string]envVar{}
+		for i, p := range md.params {
+			t, ty := arg(i)
+			nv[p] = envVar{t, ty}
+		}
+		env.vars, env.lets, env.at = nv, map[string]Expr{}, nil
+		defer func() { env.vars, env.lets, env.at = savedVars, savedLets, savedAt }()
+		return env.eval(md.body)
+	}
 	// Go conversions to basic integer types
 	if bt := basicType(x.Fun); bt != nil && isIntType(bt) && len(x.Args) == 1 {
 		t, ty := arg(0)
@@ -830,6 +852,26 @@ func (env *Env) callExpr(x *ECall) (*Term, types.Type) {
 // resolveLocal maps a local variable name to its SSA value at block env.at.
 func (fr *Frame) resolveLocal(name string, env *Env) (*Term, types.Type, bool) {
 	at := env.at
+	if name == "$k" {
+		// number of elements a range-over-slice loop has already processed: go/ssa's hidden
+		// index phi "rangeindex" starts at -1 and is incremented before each element
+		for _, in := range at.Instrs {
+			phi, ok := in.(*ssa.Phi)
+			if !ok {
+				break
+			}
+			if phi.Comment == "rangeindex" {
+				v := fr.vals[phi]
+				if env.phiOverride != nil {
+					if t, ok := env.phiOverride[phi]; ok {
+						v = t
+					}
+				}
+				return bvBin("bvadd", v, BVLit64(1, 64)), types.Typ[types.Int], true
+			}
+		}
+		return nil, nil, false
+	}
 	// phi in the block itself
 	for _, in := range at.Instrs {
 		phi, ok := in.(*ssa.Phi)
